@@ -300,7 +300,7 @@ struct Puppet12::Impl {
         { put16(e, 0x000a); put16(e, 4); put16(e, 2); put16(e, 23); }
         { put16(e, 0x000b); put16(e, 2); e.push_back(1); e.push_back(0); }
         if (cfg.version >= 0x0303) { static const uint8_t sa[] = { 4, 1, 5, 1, 6, 1, 2, 1, 4, 3 }; put16(e, 0x000d); put16(e, sizeof sa + 2); put16(e, sizeof sa); app(e, sa, sizeof sa); }
-        if (cfg.offer_ticket_ext) { put16(e, 0x0023); put16(e, 0); }
+        if (cfg.offer_ticket_ext) { put16(e, 0x0023); put16(e, (unsigned) cfg.client_ticket.size()); app(e, cfg.client_ticket); }
         put16(b, (unsigned) e.size()); app(b, e);
         return b;
     }
